@@ -2,6 +2,7 @@ package main
 
 import (
 	"encoding/json"
+	"runtime/pprof"
 	"flag"
 	"fmt"
 	"os"
@@ -122,9 +123,15 @@ func cmdRun(args []string) {
 	sym := fs.Bool("symmetry", false, "idle-worker symmetry reduction")
 	nosleep := fs.Bool("nosleep", false, "disable sleep sets")
 	verbose := fs.Bool("v", false, "verbose")
+	prof := fs.String("cpuprofile", "", "write a CPU profile")
 	params := paramFlag{}
 	fs.Var(params, "p", "param k=v")
 	fs.Parse(args)
+	if *prof != "" {
+		f, _ := os.Create(*prof)
+		pprof.StartCPUProfile(f)
+		defer pprof.StopCPUProfile()
+	}
 	cfg := defaultConfig()
 	cfg.Symmetry = *sym
 	cfg.NoSleepSets = *nosleep
